@@ -1,12 +1,15 @@
 import FoxModel.Generated.Consts
-import FoxModel.Model.Lookup
-import FoxModel.Model.Tree
+import FoxModel.Lemmas.Pick
 /-
   Property C01 — routing selects the documented route with the correct parameters.
-  Property theorems only; helper lemmas live in FoxModel/Lemmas.
+
+  Property theorems only (helper lemmas: FoxModel/Lemmas/{SpecAlg,Refine,RefineHost,NoBad,Pick}.lean). The executable model
+  `Fox.Model.lookup` follows node.go (roots.lookup / lookupByDomain / lookupByPath) and is tied to the Go code by the
+  correspondence streams `ops`, `serve`, `hist`; `Fox.Spec.specAll` / `specHost` are the documented priority search over
+  the *set of registered patterns* (no radix tree); their declarative meaning is FoxModel/Props/C01Spec.lean.
 -/
 namespace Fox.C01
-open Fox Fox.Model
+open Fox Fox.Model Fox.Spec
 
 /-- the constants of the Go sources (regenerated on every run) are the ones the model computes with -/
 theorem consts_tie :
@@ -14,5 +17,130 @@ theorem consts_tie :
     Generated.c_bracketDelim = LBR.toNat ∧ Generated.c_starDelim = STAR.toNat ∧
     Generated.commonVerbsBytes = commonVerbs.map (·.map UInt8.toNat) ∧ Generated.c_verb = commonVerbs.length := by
   decide
+
+/-- **Path matcher = specification (direct matches).** For every well-formed subtree, every position `k` inside the
+    node's key, every request path and every parameter prefix, the direct matches found by the model of `lookupByPath`
+    (static child, then `{param}` child, then `*{catch-all}` child; infix catch-all continuations left to right, then the
+    whole rest; explicit backtracking) are exactly, and in the same order, the matches that the documented priority
+    search enumerates over the set of pattern suffixes stored in that subtree. No bound on tree size, depth or path. -/
+theorem walk_direct_eq_spec (es : Bool) (n : Node) (pre k : List Tok) (pr : Option Route) (path : Bytes) (ps : Binds)
+    (hw : wfKids n.children = true) (hd : nodupB (kindsOf n.children) = true)
+    (hc : endsWithCatchAll k = true → allSlash n.children = true) :
+    directs (walk n pre k pr es path ps) = specAll (sufsFrom n k) path ps :=
+  (walk_refines_all es).1 n pre k pr path ps hw hd hc
+
+/-- **Hostname matcher = specification (direct matches)**: the model of `lookupByDomain` (labels with '.' as delimiter,
+    static before `{param}`, then the path below the "/" child, entered only when the whole host is consumed) enumerates
+    exactly the matches of `specHost` over the suffixes stored below the node. -/
+theorem host_direct_eq_spec (path : Bytes) (n : Node) (k : List Tok) (host : Bytes) (ps : Binds)
+    (hw : wfKids n.children = true) (hd : nodupB (kindsOf n.children) = true) (hh : hostOkKids n.children = true)
+    (hk : noSlashTok k = true) (hs : SLASH ∉ host) :
+    directs (hostWalk n k host path ps) = specHost (sufsFrom n k) host path ps :=
+  (hostWalk_refines_all path).1 n k host ps hw hd hh hk hs
+
+/-- on a well-formed tree the matcher never returns a node without a route (no nil dereference in the callers) -/
+theorem walk_never_returns_nil_route (es : Bool) (n : Node) (pre k : List Tok) (pr : Option Route) (path : Bytes) (ps : Binds)
+    (hw : wfKids n.children = true) (hc : endsWithCatchAll k = true → n.route.isSome = true) :
+    Ev.bad ∉ walk n pre k pr es path ps :=
+  (walk_no_bad_all es).1 n pre k pr path ps hw hc
+
+/-- the path stage of `roots.lookup` in terms of the specification: the best direct match if one exists, otherwise the
+    trailing-slash candidate (if any) recorded by the walk -/
+def pathStage (c : Node) (path : Bytes) : Result :=
+  match specAll (sufsNode c) path [] with
+  | (r, ps) :: _ => .found r ps false
+  | [] => firstTsr (pathEvents c path [])
+
+/-- the hostname stage likewise -/
+def hostStage (root : Node) (h path : Bytes) : Result :=
+  match specHost (sufsKids root.children) h path [] with
+  | (r, ps) :: _ => .found r ps false
+  | [] => firstTsr (hostWalk root [] h path [])
+
+/-- **`roots.lookup` refines the staged specification for direct matches.** For every method root satisfying the
+    representation invariant and every request: the router returns the first match of the hostname enumeration when the
+    method has hostname routes and the (port- and dot-stripped) host is non-empty; when that stage finds neither a direct
+    match nor a trailing-slash candidate, or does not apply, the first match of the path enumeration. In each stage a
+    trailing-slash candidate is returned only if the specification enumerates no direct match for that stage. -/
+theorem lookup_refines (rs : Roots) (m hostPort path : Bytes) (root : Node)
+    (hm : methodRoot rs m = some root) (hroot : wfRoot root = true) (hok : hostOkKids root.children = true)
+    (hs : SLASH ∉ stripHostPort hostPort) :
+    lookup rs m hostPort path =
+      (match root.children with
+       | [] => Result.none
+       | cs =>
+         let slashChild := cs.find? (fun c => startsWithSlash c.key)
+         let byPath : Result := match slashChild with
+           | some c => pathStage c path
+           | none => .none
+         if cs.length == 1 && slashChild.isSome then byPath
+         else
+           let h := stripHostPort hostPort
+           let byHost : Result := if h == [] then .none else hostStage root h path
+           match byHost with
+           | .none => byPath
+           | r => r) := by
+  have hw : wfKids root.children = true := by
+    simp only [wfRoot, Bool.and_eq_true] at hroot; exact hroot.2
+  have hd : nodupB (kindsOf root.children) = true := by
+    simp only [wfRoot, Bool.and_eq_true] at hroot; exact hroot.1.2
+  unfold lookup
+  rw [hm]
+  simp only
+  cases hcs : root.children with
+  | nil => rfl
+  | cons c0 cs0 =>
+    have hhost : pick (hostWalk root [] (stripHostPort hostPort) path []) = hostStage root (stripHostPort hostPort) path := by
+      unfold hostStage
+      exact hostLookup_refines hw hd hok _ path hs
+    cases hf : List.find? (fun c => startsWithSlash c.key) (c0 :: cs0) with
+    | none => simp only [hf, hhost]; rfl
+    | some c =>
+      have hcw : wfNode c = true := mem_wfKids (by rw [hcs] at hw; exact hw) (List.mem_of_find?_eq_some hf)
+      simp only [hf, hhost, pathStage, pathLookup_refines hcw path]; rfl
+
+/-- a direct answer of `lookupByPath` is the head of the specification's enumeration over the routes below the node -/
+theorem path_direct_is_best {c : Node} (h : wfNode c = true) (path : Bytes) (r : Route) (ps : Binds)
+    (hres : pick (pathEvents c path []) = .found r ps false) :
+    (specAll (sufsNode c) path []).head? = some (r, ps) := by
+  rw [pathLookup_refines h] at hres
+  cases hsp : specAll (sufsNode c) path [] with
+  | nil => rw [hsp] at hres; exact absurd hres (firstTsr_not_direct _ r ps)
+  | cons x xs =>
+    rw [hsp] at hres
+    obtain ⟨r', ps'⟩ := x
+    simp only at hres
+    injection hres with h1 h2 _
+    simp [h1, h2]
+
+/-- C08 (only-if half): a trailing-slash answer of `lookupByPath` means that no registered route below the node matches
+    the path directly -/
+theorem path_tsr_only_if_no_direct {c : Node} (h : wfNode c = true) (path : Bytes) (r : Route) (ps : Binds)
+    (hres : pick (pathEvents c path []) = .found r ps true) :
+    specAll (sufsNode c) path [] = [] := by
+  rw [pathLookup_refines h] at hres
+  cases hsp : specAll (sufsNode c) path [] with
+  | nil => rfl
+  | cons x xs => rw [hsp] at hres; obtain ⟨r', ps'⟩ := x; simp only at hres; injection hres with _ _ h3; cases h3
+
+/-! ### non-vacuity: a concrete well-formed tree with backtracking, an infix catch-all and a hostname -/
+
+section Example
+def rA : Route := { hid := 1, pattern := [.lit 47, .lit 97, .lit 47, .param [120]] }                    -- /a/{x}
+def rB : Route := { hid := 2, pattern := [.lit 47, .lit 97, .lit 47, .lit 98, .lit 47, .lit 99] }        -- /a/b/c
+def rC : Route := { hid := 3, pattern := [.lit 47, .catchAll [119], .lit 47, .lit 122] }                  -- /*{w}/z
+def exTree : Tree :=
+  match (newTree.insert GET rA) with
+  | .ok (t1, _) => (match t1.insert GET rB with
+    | .ok (t2, _) => (match t2.insert GET rC with | .ok (t3, _) => t3 | .error _ => t2)
+    | .error _ => t1)
+  | .error _ => newTree
+
+example : wfRoots exTree.roots = true ∧ hostOkRoots exTree.roots = true := by decide
+-- illustrations (evaluated, not proved): /a/b : the static branch /a/b/c fails, backtrack to {x};
+-- /a/b/z : static and param fail, the infix catch-all captures "a/b"
+#guard lookup exTree.roots GET [] [47, 97, 47, 98] == .found rA [([120], [98])] false
+#guard lookup exTree.roots GET [] [47, 97, 47, 98, 47, 122] == .found rC [([119], [97, 47, 98])] false
+end Example
 
 end Fox.C01
